@@ -24,7 +24,7 @@ pub mod arraymap {
         }
     }
     impl<K: Eq, V> HashMap<K, V> {
-        pub fn new() -> Self { Self { slots: Box::new([None, None, None, None, None, None, None, None]) } }
+        pub fn new() -> Self { Self { slots: Box::new([const { None }; CAP]) } }
         pub fn with_capacity(_n: usize) -> Self { Self::new() }
         fn find(&self, k: &K) -> Option<usize> {
             let mut i = 0;
@@ -101,6 +101,21 @@ pub mod arraymap {
             None
         }
     }
+    pub struct MapIntoIter<K, V> { slots: Box<[Option<(K, V)>; CAP]>, i: usize }
+    impl<K, V> Iterator for MapIntoIter<K, V> {
+        type Item = (K, V);
+        fn next(&mut self) -> Option<(K, V)> {
+            while self.i < CAP {
+                let j = self.i; self.i += 1;
+                if let Some(kv) = self.slots[j].take() { return Some(kv); }
+            }
+            None
+        }
+    }
+    impl<K: Eq, V> IntoIterator for HashMap<K, V> {
+        type Item = (K, V); type IntoIter = MapIntoIter<K, V>;
+        fn into_iter(self) -> Self::IntoIter { MapIntoIter { slots: self.slots, i: 0 } }
+    }
     impl<'a, K: Eq, V> IntoIterator for &'a HashMap<K, V> {
         type Item = (&'a K, &'a V); type IntoIter = MapIter<'a, K, V>;
         fn into_iter(self) -> Self::IntoIter { self.iter() }
@@ -125,7 +140,7 @@ pub mod arraymap {
     #[derive(Debug, Clone)]
     pub struct VecDeque<T> { pub items: [Option<T>; CAP], pub n: usize }
     impl<T> VecDeque<T> {
-        pub fn new() -> Self { Self { items: [None, None, None, None, None, None, None, None], n: 0 } }
+        pub fn new() -> Self { Self { items: [const { None }; CAP], n: 0 } }
         pub fn with_capacity(_n: usize) -> Self { Self::new() }
         pub fn len(&self) -> usize { self.n }
         pub fn is_empty(&self) -> bool { self.n == 0 }
